@@ -1585,6 +1585,20 @@ impl Archive {
         Ok(entries)
     }
 
+    /// Check that `len` bytes at absolute file position `pos` lie inside the archive
+    /// file (`file_len` bytes long) and return `len` as a buffer size.
+    ///
+    /// Sizes and offsets in block/BET entries and sector offset tables are untrusted:
+    /// buffers are only allocated for ranges the archive file really contains.
+    fn checked_data_len(file_len: u64, pos: u64, len: u64) -> Result<usize> {
+        match (pos.checked_add(len), usize::try_from(len)) {
+            (Some(end), Ok(len)) if end <= file_len => Ok(len),
+            _ => Err(Error::invalid_format(format!(
+                "Data range at 0x{pos:X} ({len} bytes) extends beyond the end of the archive file ({file_len} bytes)"
+            ))),
+        }
+    }
+
     /// Read a file from the archive
     pub fn read_file(&mut self, name: &str) -> Result<Vec<u8>> {
         let file_info = self
@@ -1638,7 +1652,10 @@ impl Archive {
 
         if file_info.is_single_unit() || !file_info.is_compressed() {
             // Single unit or uncompressed file - read directly
-            let mut data = vec![0u8; file_info.compressed_size as usize];
+            let file_len = self.reader.get_ref().metadata()?.len();
+            let data_len =
+                Self::checked_data_len(file_len, file_info.file_pos, file_info.compressed_size)?;
+            let mut data = vec![0u8; data_len];
             self.reader.read_exact(&mut data)?;
 
             // Decrypt if needed
@@ -1672,8 +1689,9 @@ impl Archive {
                 // CRC is calculated on the decompressed data
                 let data_to_check = if file_info.is_compressed() {
                     // We need to decompress first to check CRC
-                    let compression_type = data[0];
-                    let compressed_data = &data[1..];
+                    let Some((&compression_type, compressed_data)) = data.split_first() else {
+                        return Err(Error::compression("Empty compressed data"));
+                    };
                     compression::decompress(
                         compressed_data,
                         compression_type,
@@ -1815,6 +1833,7 @@ impl Archive {
 
         // Read the file data
         // Patch files start with TPatchInfo structure (uncompressed metadata)
+        let file_len = self.reader.get_ref().metadata()?.len();
         self.reader.seek(SeekFrom::Start(file_info.file_pos))?;
 
         // Read TPatchInfo header (28 bytes minimum)
@@ -1856,8 +1875,18 @@ impl Archive {
 
         if is_single_unit {
             log::debug!("Patch file is stored as single unit");
+            let compressed_data_size = file_info
+                .compressed_size
+                .checked_sub(patch_info_length as u64)
+                .ok_or_else(|| {
+                    Error::invalid_format(format!(
+                        "TPatchInfo length {patch_info_length} exceeds compressed size {}",
+                        file_info.compressed_size
+                    ))
+                })?;
+            let data_pos = self.reader.stream_position()?;
             let compressed_data_size =
-                file_info.compressed_size as usize - patch_info_length as usize;
+                Self::checked_data_len(file_len, data_pos, compressed_data_size)?;
 
             let mut data = vec![0u8; compressed_data_size];
             self.reader.read_exact(&mut data)?;
@@ -1880,8 +1909,9 @@ impl Archive {
 
             // Decompress if needed
             if file_info.is_compressed() {
-                let compression_type = data[0];
-                let compressed_data = &data[1..];
+                let Some((&compression_type, compressed_data)) = data.split_first() else {
+                    return Err(Error::compression("Empty compressed patch data"));
+                };
 
                 log::debug!(
                     "Decompressing patch file (single unit): method=0x{:02X}, compressed={} bytes → {} bytes",
@@ -1910,7 +1940,9 @@ impl Archive {
             );
 
             // Read sector offset table
-            let offset_table_size = (sector_count + 1) * 4;
+            let table_pos = self.reader.stream_position()?;
+            let offset_table_size =
+                Self::checked_data_len(file_len, table_pos, (sector_count as u64 + 1) * 4)?;
             let mut offset_data = vec![0u8; offset_table_size];
             self.reader.read_exact(&mut offset_data)?;
 
@@ -1929,13 +1961,21 @@ impl Archive {
 
             log::debug!("Sector offsets: {:?}", &sector_offsets);
 
-            // Read and decompress each sector
-            let mut decompressed_data = Vec::with_capacity(patch_data_size as usize);
+            // Read and decompress each sector. patch_data_size is untrusted: reserve no
+            // more than the stored size and let the buffer grow with the decoded sectors.
+            let mut decompressed_data = Vec::with_capacity(
+                (patch_data_size as u64).min(file_info.compressed_size.min(file_len)) as usize,
+            );
 
             for i in 0..sector_count {
                 let sector_start = sector_offsets[i] as usize;
                 let sector_end = sector_offsets[i + 1] as usize;
-                let sector_compressed_size = sector_end - sector_start;
+                let sector_compressed_size =
+                    sector_end.checked_sub(sector_start).ok_or_else(|| {
+                        Error::invalid_format(format!(
+                            "Invalid sector offsets for patch sector {i}: start={sector_start}, end={sector_end}"
+                        ))
+                    })?;
 
                 log::debug!(
                     "Reading sector {}: offset={}, size={} bytes",
@@ -1946,8 +1986,15 @@ impl Archive {
 
                 // Sector offsets are relative to the START of the offset table, NOT after it
                 // So we need to seek to: file_pos + TPatchInfo + sector_offset
-                let sector_file_pos =
-                    file_info.file_pos + patch_info_length as u64 + sector_start as u64;
+                let sector_file_pos = file_info
+                    .file_pos
+                    .checked_add(patch_info_length as u64 + sector_start as u64)
+                    .ok_or_else(|| Error::invalid_format("Patch sector position overflows"))?;
+                let sector_compressed_size = Self::checked_data_len(
+                    file_len,
+                    sector_file_pos,
+                    sector_compressed_size as u64,
+                )?;
 
                 self.reader.seek(SeekFrom::Start(sector_file_pos))?;
 
@@ -1962,19 +2009,21 @@ impl Archive {
 
                 // Patch file sectors use standard MPQ compression (Zlib/BZip2/etc)
                 // First byte indicates compression method, remaining bytes are compressed PTCH data
-                let compression_method = sector_data[0];
+                let Some((&compression_method, sector_payload)) = sector_data.split_first() else {
+                    return Err(Error::compression(format!("Empty patch sector {i}")));
+                };
                 log::debug!(
                     "Decompressing sector {} with method 0x{:02X} ({} bytes compressed)",
                     i,
                     compression_method,
-                    sector_data.len() - 1
+                    sector_payload.len()
                 );
 
                 // Decompress using standard MPQ decompression
-                let expected_size =
-                    sector_size.min(patch_data_size as usize - decompressed_data.len());
+                let expected_size = sector_size
+                    .min((patch_data_size as usize).saturating_sub(decompressed_data.len()));
                 let sector_decompressed = compression::decompress(
-                    &sector_data[1..], // Skip compression method byte
+                    sector_payload, // Without the compression method byte
                     compression_method,
                     expected_size,
                 )?;
@@ -2117,7 +2166,10 @@ impl Archive {
 
         if file_info.is_single_unit() || !file_info.is_compressed() {
             // Single unit or uncompressed file - read directly
-            let mut data = vec![0u8; file_info.compressed_size as usize];
+            let file_len = self.reader.get_ref().metadata()?.len();
+            let data_len =
+                Self::checked_data_len(file_len, file_info.file_pos, file_info.compressed_size)?;
+            let mut data = vec![0u8; data_len];
             self.reader.read_exact(&mut data)?;
 
             // Decrypt if needed
@@ -2189,9 +2241,15 @@ impl Archive {
         log::debug!("  sector_count: {}", sector_count);
         log::debug!("  is_patch_file: {}", file_info.is_patch_file());
 
-        // Read sector offset table
+        // Read sector offset table. The sector count follows from the untrusted file
+        // size, so the table must fit into the archive file before it is allocated.
+        let file_len = self.reader.get_ref().metadata()?.len();
         self.reader.seek(SeekFrom::Start(file_info.file_pos))?;
-        let offset_table_size = (sector_count + 1) * 4;
+        let offset_table_size = Self::checked_data_len(
+            file_len,
+            file_info.file_pos,
+            (sector_count as u64).saturating_add(1).saturating_mul(4),
+        )?;
         log::debug!("  offset_table_size: {} bytes", offset_table_size);
         log::debug!(
             "  Attempting to read offset table at position 0x{:X}",
@@ -2239,6 +2297,12 @@ impl Archive {
 
             if first_data_offset >= expected_crc_table_start + expected_crc_table_size {
                 // CRC table follows the offset table
+                let crc_table_pos = self.reader.stream_position()?;
+                let expected_crc_table_size = Self::checked_data_len(
+                    file_len,
+                    crc_table_pos,
+                    expected_crc_table_size as u64,
+                )?;
                 let mut crc_data = vec![0u8; expected_crc_table_size];
                 self.reader.read_exact(&mut crc_data)?;
 
@@ -2273,12 +2337,16 @@ impl Archive {
             }
         }
 
-        // Read and decompress each sector
-        let mut decompressed_data = Vec::with_capacity(file_info.file_size as usize);
+        // Read and decompress each sector. file_size is untrusted: reserve no more than
+        // the stored size up front and let the buffer grow with the decoded sectors.
+        let stored_size = file_info.compressed_size.min(file_len);
+        let mut decompressed_data =
+            Vec::with_capacity(file_info.file_size.min(stored_size) as usize);
 
         // Pre-allocate a reusable buffer for sector reading
-        // Add some overhead for compression headers
-        let max_sector_size = sector_size + 1024;
+        // Add some overhead for compression headers (never more than the file stores:
+        // the sector size comes from the header's sector shift)
+        let max_sector_size = (sector_size as u64 + 1024).min(stored_size) as usize;
         let mut sector_buffer = vec![0u8; max_sector_size];
 
         for i in 0..sector_count {
@@ -2293,21 +2361,27 @@ impl Archive {
                 );
 
                 // Skip this sector and continue with zeros
-                let remaining = file_info.file_size as usize - decompressed_data.len();
+                let remaining =
+                    (file_info.file_size as usize).saturating_sub(decompressed_data.len());
                 let expected_size = remaining.min(sector_size);
                 decompressed_data.extend(vec![0u8; expected_size]);
                 continue;
             }
 
-            let sector_size_compressed = (sector_end - sector_start) as usize;
+            // The sector must lie inside the archive file
+            let sector_pos = file_info
+                .file_pos
+                .checked_add(sector_start)
+                .ok_or_else(|| Error::invalid_format("Sector position overflows"))?;
+            let sector_size_compressed =
+                Self::checked_data_len(file_len, sector_pos, sector_end - sector_start)?;
 
             // Calculate expected decompressed size for this sector
-            let remaining = file_info.file_size as usize - decompressed_data.len();
+            let remaining = (file_info.file_size as usize).saturating_sub(decompressed_data.len());
             let expected_size = remaining.min(sector_size);
 
             // Seek to sector data - offsets are absolute from file position
-            self.reader
-                .seek(SeekFrom::Start(file_info.file_pos + sector_start))?;
+            self.reader.seek(SeekFrom::Start(sector_pos))?;
 
             // Ensure our buffer is large enough
             if sector_size_compressed > sector_buffer.len() {
